@@ -283,7 +283,10 @@ def other_like(rng, da, scale=1.0):
     """data with the structure of `da` (dims, coords, NaN pattern) and unrelated values"""
     import numpy as np
     v = np.asarray(da.values)
-    w = rng.normal(size=v.shape) * scale * (np.nanstd(np.abs(v)) or 1.0) + rng.normal()
+    sd = float(np.nanstd(np.abs(v)) or 1.0)
+    # unrelated values in the units of `da`: anomalies AND mean state of the data's own size (an offset of order one on data of order 1e-8
+    # would be numerically rank-one data, which uncentred models may rightly refuse)
+    w = (rng.normal(size=v.shape) * scale + rng.normal()) * sd
     if np.iscomplexobj(v):
         w = w + 1j * rng.normal(size=v.shape)
     w = np.where(np.isnan(v), np.nan, w)
